@@ -1,0 +1,58 @@
+// Copyright 2026 The Go Authors. All rights reserved.
+// Use of this source code is governed by a BSD-style
+// license that can be found in the LICENSE file.
+
+//go:build verif && (!goexperiment.jsonv2 || !go1.25)
+
+package jsontext
+
+import "unsafe"
+
+// VerifPoolHook, when set, is called whenever a pooled coder is handed out
+// (after it was reset) or returned to its pool. It receives the pool kind,
+// an identity of the coder object and the state that survived the reset:
+//
+//	[len(buffer), stack depth beyond the top level, length of the top level,
+//	 open object names, open namespaces, tracked pointers, peek/offset residue]
+//
+// It exists only under the "verif" build tag and is used by external
+// verification machinery to validate traces of the pool discipline.
+var VerifPoolHook func(event, kind string, obj uintptr, residue [7]int)
+
+func verifPoolGetEncoder(kind string, e *Encoder) {
+	if h := VerifPoolHook; h != nil {
+		h("get", kind, uintptr(unsafe.Pointer(e)), encoderResidue(e))
+	}
+}
+
+func verifPoolPutEncoder(kind string, e *Encoder) {
+	if h := VerifPoolHook; h != nil {
+		h("put", kind, uintptr(unsafe.Pointer(e)), encoderResidue(e))
+	}
+}
+
+func verifPoolGetDecoder(kind string, d *Decoder) {
+	if h := VerifPoolHook; h != nil {
+		h("get", kind, uintptr(unsafe.Pointer(d)), decoderResidue(d))
+	}
+}
+
+func verifPoolPutDecoder(kind string, d *Decoder) {
+	if h := VerifPoolHook; h != nil {
+		h("put", kind, uintptr(unsafe.Pointer(d)), decoderResidue(d))
+	}
+}
+
+func encoderResidue(e *Encoder) [7]int {
+	return [7]int{len(e.s.Buf), e.s.Tokens.Depth() - 1, int(e.s.Tokens.Last.Length()),
+		e.s.Names.length(), len(e.s.Namespaces), len(e.s.SeenPointers), int(e.s.baseOffset)}
+}
+
+func decoderResidue(d *Decoder) [7]int {
+	peek := d.s.peekPos
+	if d.s.peekErr != nil {
+		peek = -1
+	}
+	return [7]int{d.s.prevEnd - d.s.prevStart, d.s.Tokens.Depth() - 1, int(d.s.Tokens.Last.Length()),
+		d.s.Names.length(), len(d.s.Namespaces), peek, int(d.s.baseOffset) + d.s.prevEnd}
+}
